@@ -1,11 +1,152 @@
 import TdVerif.Sexp
+import TdVerif.Model.C09KV
+import TdVerif.Model.C09Shape
 
 namespace TdVerif.Drive
-open TdVerif Sexp
+open TdVerif Sexp TdVerif.C09
 
-/-- line-protocol handler for C09: commands are named `c09.<something>` -/
+/-- symbolic leaves: which stored entry / operand feeds a result entry -/
+inductive Sym where
+  | l (side : Nat) (k : Path)     -- entry `k` of operand number `side` (0 = self)
+  | sc (i : Nat)                  -- operand `i` that is not a tensordict (same for every key)
+  | d                             -- the `default=` tensor
+  | ap (args : List Sym)          -- the torch op applied to these operands
+  deriving Inhabited
+
+partial def symToSexp : Sym → Sexp
+  | .l s k => tagged "l" [ofNat s, .list (k.map .atom)]
+  | .sc i => tagged "sc" [ofNat i]
+  | .d => .list [.atom "d"]
+  | .ap args => tagged "f" (args.map symToSexp)
+
+def path? : Sexp → Option Path
+  | .list l => l.mapM asAtom?
+  | _ => none
+
+def paths? : Sexp → Option (List Path)
+  | .list l => l.mapM path?
+  | _ => none
+
+def mkKV (side : Nat) (ks : List Path) : KV Sym := ks.map (fun k => (k, Sym.l side k))
+
+def other? (side : Nat) : Sexp → Option (Other Sym)
+  | .list [.atom "td", ks] => do pure (.td (mkKV side (← paths? ks)))
+  | .list [.atom "sc"] => some (.scalar (.sc side))
+  | _ => none
+
+def dflt? : Sexp → Option (Dflt Sym)
+  | .atom "none" => some .none
+  | .atom "inter" => some .intersection
+  | .atom "val" => some (.value .d)
+  | _ => none
+
+def kvToSexp (r : Except Err (KV Sym)) : Sexp :=
+  match r with
+  | .error e => tagged "err" [.atom e.toStr]
+  | .ok kv => tagged "ok" (kv.map (fun (k, v) => .list [.list (k.map .atom), symToSexp v]))
+
+def f2 (a b : Sym) : Sym := .ap [a, b]
+def f3 (a b c : Sym) : Sym := .ap [a, b, c]
+def f1 (a : Sym) : Sym := .ap [a]
+
+/-- row-major flat index of a coordinate -/
+def ravel (shape : List Nat) (c : List Nat) : Nat :=
+  (List.zip shape c).foldl (fun acc (p : Nat × Nat) => acc * p.1 + p.2) 0
+
+/-- all coordinates of a shape, row-major -/
+def coords : List Nat → List (List Nat)
+  | [] => [[]]
+  | d :: rest => (List.range d).flatMap (fun i => (coords rest).map (fun c => i :: c))
+
+def errSexp (e : Err) : Sexp := tagged "err" [.atom e.toStr]
+
+def dimArg? : Sexp → Option DimArg
+  | .atom "nodef" => some .noDefault
+  | .atom "none" => some .none
+  | .atom "feature" => some .feature
+  | .list [.atom "int", d] => do pure (.int (← asInt? d))
+  | .list (.atom "tuple" :: ds) => do pure (.tuple (← ints? ds))
+  | _ => none
+
+def keep? : Sexp → Option (Option Bool)
+  | .atom "nodef" => some none
+  | .atom "true" => some (some true)
+  | .atom "false" => some (some false)
+  | _ => none
+
+def bool? : Sexp → Option Bool
+  | .atom "true" => some true
+  | .atom "false" => some false
+  | _ => none
+
+def keepToSexp : Option Bool → Sexp
+  | none => .atom "nodef"
+  | some true => .atom "true"
+  | some false => .atom "false"
+
+def leafToSexp : LeafRed → Sexp
+  | .all k => tagged "all" [keepToSexp k]
+  | .dimNone k => tagged "dimnone" [keepToSexp k]
+  | .dims ds k => tagged "dims" [ofNats ds, keepToSexp k]
+  | .feature => .list [.atom "feature"]
+
 def handleC09 (cmd : String) (args : List Sexp) : Option Sexp :=
   match cmd, args with
+  | "c09.binop", [.atom mode, ks, o, d] => do
+      let self := mkKV 0 (← paths? ks)
+      let o ← other? 1 o
+      let d ← dflt? d
+      if mode = "inplace" then pure (kvToSexp (binopInplace f2 self o))
+      else pure (kvToSexp (binop f2 self o d))
+  | "c09.tern", [.atom mode, ks, o1, o2] => do
+      let self := mkKV 0 (← paths? ks)
+      let o1 ← other? 1 o1
+      let o2 ← other? 2 o2
+      if mode = "inplace" then pure (kvToSexp (ternopInplace f3 self o1 o2))
+      else if mode = "pos" then pure (kvToSexp (ternopPositional f3 self o1 o2))
+      else pure (kvToSexp (ternop f3 self o1 o2))
+  | "c09.cmp", [ks, o] => do
+      let self := mkKV 0 (← paths? ks)
+      pure (kvToSexp (cmp f2 self (← other? 1 o)))
+  | "c09.unop", [ks] => do
+      pure (kvToSexp (unop f1 (mkKV 0 (← paths? ks))))
+  | "c09.bcast", [.list batch, .list oshape, .list feat] => do
+      let batch ← nats? batch; let oshape ← nats? oshape; let feat ← nats? feat
+      let o : T (List Nat) := ⟨oshape, id⟩
+      match broadcastOther batch o feat with
+      | .error e => pure (errSexp e)
+      | .ok (shape, r) =>
+        pure (tagged "ok" [tagged "batch" (shape.map ofNat),
+          tagged "idx" ((coords (shape ++ feat)).map (fun c => ofNat (ravel oshape (r.get c))))])
+  | "c09.bcast_inplace", [.list batch, .list oshape, .list feat] => do
+      let batch ← nats? batch; let oshape ← nats? oshape; let feat ← nats? feat
+      let o : T (List Nat) := ⟨oshape, id⟩
+      match broadcastOtherInplace batch o feat with
+      | .error e => pure (errSexp e)
+      | .ok r =>
+        pure (tagged "ok" [tagged "batch" (batch.map ofNat),
+          tagged "idx" ((coords (batch ++ feat)).map (fun c => ofNat (ravel oshape (r.get c))))])
+  | "c09.expand_as_right", [.list tshape, .list dest] => do
+      let tshape ← nats? tshape; let dest ← nats? dest
+      let t : T (List Nat) := ⟨tshape, id⟩
+      match expandAsRight t dest with
+      | .error e => pure (errSexp e)
+      | .ok r => pure (tagged "ok" [tagged "idx" ((coords dest).map (fun c => ofNat (ravel tshape (r.get c))))])
+  | "c09.reduce", [tok, con, fb, .list batch, names, dim, keep] => do
+      let cfg : RedCfg := ⟨← bool? tok, ← bool? con, ← bool? fb⟩
+      let batch ← nats? batch
+      let names : Option (List String) ← (match names with
+        | .atom "none" => some none
+        | .list l => (l.mapM asAtom?).map some
+        | _ => none)
+      let dim ← dimArg? dim
+      let keep ← keep? keep
+      match castReduction cfg batch names dim keep with
+      | .error e => pure (errSexp e)
+      | .ok out =>
+        pure (tagged "ok" [tagged "batch" (out.batch.map ofNat),
+          (match out.names with | none => .atom "nonames" | some ns => tagged "names" (ns.map .atom)),
+          leafToSexp out.leaf])
   | _, _ => none
 
 end TdVerif.Drive
